@@ -79,6 +79,17 @@ add("C05", "proof",
     "contract-based deductive verification: functional contracts with uninterpreted hashes on the real verification code, z3/cvc5",
     "DESIGN.md section 4 C05")
 
+add("C04", "proof",
+    "Contracts on the real Verify / VerifyWithCustomWOTSParamW / xmssVerifySig: acceptance implies a supported hash id (0..2), a height field consistent with the signature length (len = 2180 + 32h, h = 2*(pk[1]&15) >= 4), and equals xmssVerifySig on exactly (hash id, WOTS parameters for w, message, signature, pk[3:67], h); xmssVerifySig accepts iff all 32 bytes of the recomputed root equal pk[0:32] (and the message fits the 32-bit length arithmetic), with the index read big-endian from sig[0:4], the message-hash key R || root || toByte(idx,32) built from sig[4:36] and the key's root, OTS/L-tree/node addresses (type 0/1/2, index idx), public seed pk[32:64], and the authentication path taken at offset 36 + keySize. The check found that a public key naming hash id 3..15 with a zero root was accepted for any message (fixed, known_findings.json).",
+    "Collision-type claims ('any flipped bit is rejected') are not claimed. The argument wiring of the three sub-computations is pinned through `exit` clauses over the function's locals and `pure` abstractions of the callees (purity by the effects back end); their internal recursive structure is covered by C06's hash-construction contracts and bounded reference run, not by a recursive specification.",
+    "contract-based deductive verification: functional contracts and internal postconditions on the real verification code with uninterpreted hashes, z3/cvc5; purity by go/ssa effects analysis",
+    "DESIGN.md section 4 C04")
+add("C06", "other",
+    "Deductive (all inputs): each hash construction, address/toByte serialisation, seed derivation, key-generation seed expansion and layout, and the signing-side wiring equals its RFC 8391/QRL specification over uninterpreted hash primitives; Verify == VerifyWithCustomWOTSParamW(16). Bounded (labelled): byte-identity of public key and every signature with an independent full-Merkle-tree reference implementation for heights 4 (quick) / 4,6,8 (thorough), three hash functions; label run of the traversal as in C01.",
+    "Level 'other' = proved per-call constructions and wiring + bounded whole-object comparison. The recursive WOTS-chain / L-tree / Merkle-tree structure is not under a recursive functional specification.",
+    "contract-based deductive verification of the hash constructions and wiring on the real code; bounded differential run against an independent reference implementation, labelled bounded",
+    "DESIGN.md section 4 C06")
+
 reasons = {}
 for p in ALL:
     if p not in checks:
